@@ -181,12 +181,20 @@ void bigCube(Rng& r, const Args& A) {
     {
         minterm m(F);
         std::string desc;
+        // half of the cubes have LONG runs of unconstrained levels (one skipped run alone beyond 2^32, 2^64):
+        // the free / constrained choice is then a two-state chain instead of independent per level
+        bool runny = r.chance(1, 2);
+        bool freeRun = r.chance(1, 2);
+        if (runny) STATS.hit("cube.longRuns");
         for (unsigned v = K; v; --v) {
             int sz = D.sizes[v - 1];
-            int from = r.chance(1, 3) ? r.range(0, sz - 1) : DONT_CARE;
+            if (runny && r.chance(1, 16)) freeRun = !freeRun;
+            bool fix = runny ? !freeRun : r.chance(1, 3);
+            int from = fix ? r.range(0, sz - 1) : DONT_CARE;
             if (k.rel) {
                 unsigned x = r.below(100);
                 int to = x < 30 ? r.range(0, sz - 1) : (x < 65 ? DONT_CHANGE : DONT_CARE);
+                if (runny) to = freeRun ? (r.chance(1, 8) ? DONT_CHANGE : DONT_CARE) : (r.chance(1, 2) ? r.range(0, sz - 1) : DONT_CHANGE);
                 m.setVars(v, from, to);
                 if (to == DONT_CHANGE && from >= 0) to = from;   // what setVars stores
                 desc += " " + std::to_string(sz) + ":" + maskTok(from) + ":" + maskTok(to);
